@@ -4,7 +4,7 @@ CONSTANTS
   LeaveFix = TRUE
   MaxResets = 2
   Faults = TRUE
-  MaxProcs = 2
+  MaxProcs = 1
 VIEW view
 INVARIANT TypeOK
 INVARIANT StartedOnlyWhenAll
